@@ -187,7 +187,7 @@ func (t *translator) extract2(g *fn) {
 	}
 	hit := hits[ex.Nth]
 
-	ft := &ftrans{t: t, f: g, names: map[*ast.Object]string{}, used: map[string]bool{}, pathVars: map[string]binding{}}
+	ft := &ftrans{t: t, f: g, names: map[*ast.Object]string{}, used: map[string]bool{}, pathVars: map[string]binding{}, curIota: -1}
 	e := env{}
 	var ps []string
 	if len(ex.Order) != len(ex.Vars) {
